@@ -13,6 +13,7 @@ from .YosysTranslator import YosysTranslator
 class YosysTranslationPass( VerilogTranslationPass ):
 
   def __call__( s, top ):
+    s.check_not_locked_in_simulation( top )
     s.top = top
     s.translator = YosysTranslator( s.top )
     s.traverse_hierarchy( top )
